@@ -55,7 +55,7 @@ def main():
     if os.environ.get('SEEDED_SCRATCH'):
         scratch = f'/tmp/seeded_scratch_{name}'
         shutil.rmtree(scratch, ignore_errors=True)
-        shutil.copytree('/repo', scratch, ignore=shutil.ignore_patterns('.git', '__pycache__'))
+        shutil.copytree(os.environ.get('SEEDED_SRC', '/repo'), scratch, ignore=shutil.ignore_patterns('.git', '__pycache__'))
         sh('git init -q . && git add -A >/dev/null 2>&1', cwd=scratch)
         meta['mode'] = 'scratch copy (prescreen)'
     target = scratch or '/repo'
@@ -78,8 +78,9 @@ def main():
             shutil.rmtree(scratch, ignore_errors=True)
         else:
             sh('git checkout -- .', cwd='/repo')
-    rc, out = sh('git status --short', cwd='/repo')
-    assert not out.strip(), out
+    if not scratch:
+        rc, out = sh('git status --short', cwd='/repo')
+        assert not out.strip(), out
     meta['detected_by'] = [r['check'] for r in meta['ran'] if r['exit'] == 1]
     json.dump(meta, open(os.path.join(d, 'meta.json'), 'w'), indent=1)
     print(json.dumps({k: v for k, v in meta.items() if k != 'ran'}, indent=1)[:1200])
